@@ -24,7 +24,7 @@ import (
 )
 
 // Sigma is the adversarial string set; each is embedded as "a" + s + "b".
-var Sigma = []string{";", "; -- c", "'", "\"", "`", "'q'", "\"q\"", "\\\"", "--", "/*", "*/", "#", "\\", "\n", "$$", "$t$", " BEGIN ", " END; ", ";\n", "\r\n", "\r", "down", " Down ", "StatementBegin", " up ", "\nDELIMITER //\n", "\n-- atlas:delimiter x\n"}
+var Sigma = []string{";", "; -- c", "'", "\"", "`", "'q'", "\"q\"", "\\\"", "--", "/*", "*/", "#", "\\", "\n", "$$", "$t$", " BEGIN ", " END; ", ";\n", "\r\n", "\r", "down", " Down ", "StatementBegin", " up ", "\nDELIMITER //\n", "\n-- atlas:delimiter x\n", " -- +goose Up ", " -- migrate:up "}
 
 var Slots = []string{"table", "column", "index", "check_name", "fk_name", "table_comment", "column_comment", "index_comment", "default", "enum_value", "check_literal", "default_dq", "default_raw"}
 
@@ -63,7 +63,10 @@ func val(c Case, slot, def string) string {
 func sqlQuote(s string) string { return "'" + strings.ReplaceAll(s, "'", "''") + "'" }
 
 // build returns the schema; full=false omits the column/index/check/fk/comments that "alter" adds.
-func build(d *dialectT, c Case, full bool) *schema.Schema {
+func build(d *dialectT, c Case, full bool) *schema.Schema { return buildEnum(d, c, full, "") }
+
+// buildEnum: grow = "after" / "before" adds an enum value right after / before the adversarial one.
+func buildEnum(d *dialectT, c Case, full bool, grow string) *schema.Schema {
 	intT := func() schema.Type {
 		return &schema.IntegerType{T: map[string]string{"mysql": "int", "postgres": "integer", "sqlite": "integer"}[d.name]}
 	}
@@ -101,10 +104,17 @@ func build(d *dialectT, c Case, full bool) *schema.Schema {
 	}
 	if d.enum {
 		var et *schema.EnumType
+		vals := []string{val(c, "enum_value", "ev"), "ok"}
+		switch grow {
+		case "after":
+			vals = []string{vals[0], "mid", "ok"}
+		case "before":
+			vals = []string{"head", vals[0], "ok"}
+		}
 		if d.name == "mysql" {
-			et = &schema.EnumType{T: "enum", Values: []string{val(c, "enum_value", "ev"), "ok"}}
+			et = &schema.EnumType{T: "enum", Values: vals}
 		} else {
-			et = &schema.EnumType{T: "en", Values: []string{val(c, "enum_value", "ev"), "ok"}, Schema: s}
+			et = &schema.EnumType{T: "en", Values: vals, Schema: s}
 			s.AddObjects(et)
 		}
 		t.AddColumns(&schema.Column{Name: "e", Type: &schema.ColumnType{Type: et, Null: true}})
@@ -225,6 +235,9 @@ func evalWith(c Case, via string) (problems []string, skipped string, cmds []str
 		from, to = build(d, c, false), build(d, c, true)
 	case "alter_back":
 		from, to = build(d, c, true), build(d, c, false)
+	case "enum_after", "enum_before":
+		// a value is added to the enum next to the adversarial one (PostgreSQL names the neighbour).
+		from, to = build(d, c, true), buildEnum(d, c, true, strings.TrimPrefix(c.Kind, "enum_"))
 	}
 	changes, err := d.differ.SchemaDiff(from, to, schema.DiffNormalized())
 	if err != nil {
@@ -361,7 +374,11 @@ func cases(tier string) []Case {
 			if skip {
 				continue
 			}
-			for _, kind := range []string{"create", "drop", "alter", "alter_back"} {
+			kinds := []string{"create", "drop", "alter", "alter_back"}
+			if _, ok := ch.vals["enum_value"]; ok && d.enum && len(ch.vals) == 1 {
+				kinds = append(kinds, "enum_after", "enum_before")
+			}
+			for _, kind := range kinds {
 				for _, f := range formats {
 					for _, ind := range []string{"", "  "} {
 						delims := []string{""}
@@ -397,7 +414,7 @@ func ownQuote(c Case) bool {
 }
 
 func Run(r *report.Run) {
-	r.Rule = "plans of the real MySQL/PostgreSQL/SQLite planners over a two-table schema in which one slot (thorough: two slots) out of 11 (table/column/index/check/foreign-key name, table/column/index comment, string default, enum value, check string literal) holds each of 20 adversarial strings (quotes, semicolon, comment markers, backslash, newline, dollar tags, BEGIN/END, DELIMITER and atlas:delimiter lines) x change kind {create, drop, alter, alter back} x 6 formatters (the atlas one also through Planner.WriteCheckpoint) x indent {none, two spaces} x plan delimiter (atlas format: default, \\nGO, //, \\n-- end); the file is read back with the matching reader and the dialect's scanner and must yield exactly Plan.Changes[].Cmd; every change comment carries a marker that must not reach a statement; import slice: the directory written by each third-party formatter is imported by the real `atlas migrate import` and the resulting atlas file, read with the dialect's scanner, must again yield exactly the planned statements; execution slice: for every dialect x format x change kind the formatted files are written into a local directory opened as the format's own directory type and the real Executor (empty history, statements recorded by the driver) must run exactly the planned statements; hand-written third-party files (3 statements x 4 terminator spellings incl. trailing blanks / tab / CR LF x 3 file endings incl. an unterminated last statement x 5 formats) must be read as exactly their 3 statements by the format's reader and by `migrate import`; non-trivial = case with >=1 adversarial slot; distinct = (dialect, slots, kind, format, indent, delimiter)"
+	r.Rule = "plans of the real MySQL/PostgreSQL/SQLite planners over a two-table schema in which one slot (thorough: two slots) out of 11 (table/column/index/check/foreign-key name, table/column/index comment, string default, enum value, check string literal) holds each of 20 adversarial strings (quotes, semicolon, comment markers, backslash, newline, dollar tags, BEGIN/END, DELIMITER and atlas:delimiter lines) x change kind {create, drop, alter, alter back; for the enum value slot also: a value added right after / before the adversarial one} x 6 formatters (the atlas one also through Planner.WriteCheckpoint) x indent {none, two spaces} x plan delimiter (atlas format: default, \\nGO, //, \\n-- end); the file is read back with the matching reader and the dialect's scanner and must yield exactly Plan.Changes[].Cmd; every change comment carries a marker that must not reach a statement; import slice: the directory written by each third-party formatter is imported by the real `atlas migrate import` and the resulting atlas file, read with the dialect's scanner, must again yield exactly the planned statements; execution slice: for every dialect x format x change kind the formatted files are written into a local directory opened as the format's own directory type and the real Executor (empty history, statements recorded by the driver) must run exactly the planned statements; hand-written third-party files (3 statements x 4 terminator spellings incl. trailing blanks / tab / CR LF x 3 file endings incl. an unterminated last statement x 5 formats) must be read as exactly their 3 statements by the format's reader and by `migrate import`; non-trivial = case with >=1 adversarial slot; distinct = (dialect, slots, kind, format, indent, delimiter)"
 	r.Assumptions = []string{
 		"statement text is compared after trimming one trailing ';'",
 		"the import slice uses create plans with at most one adversarial slot (quick: 4 slots; thorough: all)",
